@@ -192,4 +192,101 @@ def caseList (logical : Bool) (sel : Expr) : List CaseItem → Option Expr
     | some a, some b => some (.bin .or a b)
     | _, _ => none
 
+/-- sign-free trees over scalar references and unsigned canonical literals: binary operators (no REM), `.NOT.` -/
+def Plain : Expr → Bool
+  | .lit l => l.sign.unop == none && l.canonical && l.writable
+  | .un u e => u == .not && Plain e
+  | .bin b l r => b != .rem && Plain l && Plain r
+  | .part _ .nil .nil => true
+  | _ => false
+
+def PlainItem : CaseItem → Bool
+  | .value v => Plain v
+  | .range lo hi => (match lo with | some e => Plain e | none => true) &&
+      (match hi with | some e => Plain e | none => true)
+
+theorem not_same (c : Ctx) : parenSignM .narrow false .not c = parenSignM .wide false .not c := by
+  obtain ⟨par, gp⟩ := c
+  cases par <;> simp [parenSignM, parenSign]
+
+theorem plain_wf : ∀ e, Plain e = true → wf .expr e = true := by
+  intro e
+  induction e with
+  | lit l => intro h; simp [Plain] at h; simp [wf, h.2]
+  | un u x ih => intro h; simp [Plain] at h; simp [wf, ih h.2]
+  | bin b l r ihl ihr => intro h; simp [Plain] at h; simp [wf, h.1.1, ihl h.1.2, ihr h.2]
+  | part n a nx _ _ =>
+    intro h
+    cases a <;> cases nx <;> simp [Plain] at h
+    simp [wf]
+  | call f a _ => intro h; simp [Plain] at h
+  | nil => intro h; simp [Plain] at h
+  | cons k x r _ _ => intro h; simp [Plain] at h
+
+theorem plain_canonical : ∀ e, Plain e = true → litsCanonical e = true := by
+  intro e
+  induction e with
+  | lit l => intro h; simp [Plain] at h; simp [litsCanonical, h.1.2]
+  | un u x ih => intro h; simp [Plain] at h; simp [litsCanonical, ih h.2]
+  | bin b l r ihl ihr => intro h; simp [Plain] at h; simp [litsCanonical, ihl h.1.2, ihr h.2]
+  | part n a nx _ _ =>
+    intro h
+    cases a <;> cases nx <;> simp [Plain] at h
+    simp [litsCanonical]
+  | call f a _ => intro h; simp [Plain] at h
+  | nil => intro h; simp [Plain] at h
+  | cons k x r _ _ => intro h; simp [Plain] at h
+
+theorem plain_not_exposed : ∀ e, Plain e = true → ∀ c, exposed c e = false := by
+  intro e
+  induction e with
+  | lit l => intro h c; simp [Plain] at h; simp [exposed, h.1.1]
+  | un u x ih =>
+    intro h c; simp [Plain] at h
+    obtain ⟨rfl, hx⟩ := h
+    simp [exposed, not_same c, ih hx]
+  | bin b l r ihl ihr => intro h c; simp [Plain] at h; simp [exposed, ihl h.1.2, ihr h.2]
+  | part n a nx _ _ =>
+    intro h c
+    cases a <;> cases nx <;> simp [Plain] at h
+    simp [exposed]
+  | call f a _ => intro h; simp [Plain] at h
+  | nil => intro h; simp [Plain] at h
+  | cons k x r _ _ => intro h; simp [Plain] at h
+
+theorem plain_exprOK (e : Expr) (h : Plain e = true) : ExprOK e = true := by
+  simp [ExprOK, plain_wf e h, plain_not_exposed e h, plain_canonical e h]
+
+theorem caseCond_plain (logical : Bool) (sel : Expr) (i : CaseItem) (c : Expr)
+    (hs : Plain sel = true) (hi : PlainItem i = true) (hc : caseCond logical sel i = some c) :
+    Plain c = true := by
+  cases i with
+  | value v =>
+    simp [caseCond] at hc; subst hc
+    simp [PlainItem] at hi
+    cases logical <;> simp [Plain, hs, hi]
+  | range lo hi' =>
+    cases lo <;> cases hi' <;> simp [caseCond] at hc <;> subst hc <;> simp [PlainItem] at hi <;>
+      simp_all [Plain]
+
+theorem caseList_plain (logical : Bool) (sel : Expr) : ∀ (items : List CaseItem) (c : Expr),
+    Plain sel = true → (∀ i ∈ items, PlainItem i = true) → caseList logical sel items = some c →
+    Plain c = true := by
+  intro items
+  induction items with
+  | nil => intro c _ _ h; simp [caseList] at h
+  | cons i r ih =>
+    intro c hs hi hc
+    cases r with
+    | nil => exact caseCond_plain logical sel i c hs (hi i (by simp)) (by simpa [caseList] using hc)
+    | cons j r' =>
+      simp only [caseList] at hc
+      split at hc
+      · rename_i a b ha hb
+        simp at hc; subst hc
+        have pa := caseCond_plain logical sel i a hs (hi i (by simp)) ha
+        have pb := ih b hs (fun x hx => hi x (by simp [hx])) hb
+        simp [Plain, pa, pb]
+      · simp at hc
+
 end C03
